@@ -135,6 +135,31 @@ def write_mc(d, name, base, defs, cfg_lines):
 
 # --------------------------------------------------------------------------- graph -> schedules
 
+ACTIONS = collections.Counter()   # action name (without arguments) -> edges seen in the dumped state graphs of this run
+
+
+def next_actions(spec_path):
+    """Names of the operators that the definition of Next in an X spec mentions (its named actions)."""
+    try:
+        txt = open(spec_path).read()
+    except OSError:
+        return {}
+    defined = set(re.findall(r"^([A-Z][A-Za-z0-9_]*)(?:\([^)]*\))? *==", txt, re.M))
+    m = re.search(r"^Next *==(.*?)(?:\n\s*\n|\n[A-Z][A-Za-z0-9_]*(?:\([^)]*\))? *==)", txt, re.M | re.S)
+    if not m:
+        return {}
+    body = m.group(1)
+    used = set(re.findall(r"\b([A-Z][A-Za-z0-9_]*)\b", body))
+    sets = set(re.findall(r"\\in\s+([A-Z][A-Za-z0-9_]*)", body))      # quantifier domains are not actions
+    out = {}
+    for u in used & defined:
+        if u in sets or u in ("Next", "Gate", "Init"):
+            continue
+        d = re.search(r"^%s(?:\([^)]*\))? *==(.*?)(?:\n\s*\n|\Z)" % re.escape(u), txt, re.M | re.S)
+        out[u] = d.group(1) if d else ""
+    return out
+
+
 def parse_dot(path):
     """Returns (init_nodes, edges) with edges: dict node -> list of (label, dst)."""
     init, edges = [], collections.defaultdict(list)
@@ -147,6 +172,7 @@ def parse_dot(path):
             if m:
                 a, b, l = m.group(1), m.group(2), m.group(3)
                 edges[a].append((l, b))
+                ACTIONS[re.split(r"[( ]", l, 1)[0]] += 1
                 n_edges += 1
                 continue
             m = node_re.match(line)
@@ -514,6 +540,16 @@ def standard_check(prop, tier, seed, fam):
         "samples": st["samples"][:3] or [{"note": "no sample"}],
         "exhaustive": False,
     }
+    if ACTIONS:
+        # vacuity: which named actions of the X specs occur in the state graphs the schedules came from
+        named = {}
+        for xs in fam["x_specs"]:
+            named.update(next_actions(os.path.join(VERIF, "specs", xs)))
+        cov["x_actions_in_graphs"] = dict(sorted(ACTIONS.items()))
+        # (a disjunct of Next that only wraps a seen action -- FireErr(p) == Fire(p, "err") -- counts as seen;
+        #  the graphs are those of the coarse, eager configuration: actions of a Fine variant never occur in them)
+        cov["x_actions_never_in_graphs"] = sorted(n for n, body in named.items() if n not in ACTIONS
+                                                  and not any(re.search(r"\b%s\b" % re.escape(a), body) for a in ACTIONS))
     cov.update(fam.get("extra_cov", {}))
     if fam.get("advisory"):
         # advisory conformance of internal steps against the X spec (DRIFT is reported, never a verdict)
